@@ -92,7 +92,8 @@ def op_strategy(kind: str, cfg: dict):
                                       "again_after_remove": st.sampled_from([False, False, True])})
     if kind == "remove":
         return st.fixed_dictionaries({"op": st.just("remove"), "who": idx,
-                                      "via": st.sampled_from(["ws", "parent"]), "ws": st.sampled_from([0, 0, 0, 1])})
+                                      "via": st.sampled_from(["ws", "parent"]), "ws": st.sampled_from([0, 0, 0, 1]),
+                                      "protect": st.integers(0, 4).map(lambda v: v == 0)})
     if kind == "remove_many":
         return st.fixed_dictionaries({"op": st.just("remove_many"), "parent": idx,
                                       "who": st.lists(idx, min_size=2, max_size=3)})
@@ -1249,12 +1250,41 @@ class TreeRun:
         rich = bool(wd.descendants(uid)) or any(uid in pg["props"] for pg in (wd.nodes[node["parent"]].get("pgs") or {}).values())
         n_groups = sum(uid in pg["props"] for pg in (wd.nodes[node["parent"]].get("pgs") or {}).values())
         self.parents.add(node["parent"])
+        if (op.get("protect") and self.props and self.props <= {"C01", "C02"} and wd.descendants(uid)
+                and node.get("allow_delete") is not False):
+            # constructive: one descendant is protected first, then the ancestor is removed through the workspace
+            desc = wd.descendants(uid)
+            d_uid = desc[op["who"] % len(desc)]
+            d_ent = wd.entity(d_uid)
+            if d_ent is not None and wd.nodes[d_uid].get("allow_delete") is not False:
+                self.call(wd.nodes[d_uid]["cls"], setattr, d_ent, "allow_delete", False)
+                wd.nodes[d_uid]["allow_delete"] = False
+            del d_ent
+            op = {**op, "via": "ws"}
         if op["via"] == "ws" and node.get("allow_delete") is not False and any(
                 wd.nodes[d].get("allow_delete") is False for d in wd.descendants(uid)):
-            # removing an entity with a protected descendant: outcome not fixed by the statement
-            self.res.count("skipped_protected_descendant")
+            # removing an entity with a protected descendant: which part of the subtree goes before the refusal is not
+            # fixed by any statement; what remains must still be one tree (C01: live == re-opened, C02: a valid file)
+            if not self.props or not self.props <= {"C01", "C02"}:
+                self.res.count("skipped_protected_descendant")
+                del ent
+                return False
+            try:
+                wd.ws.remove_entity(ent)
+                self.res.label("remove:protected-descendant:accepted")
+            except Exception:
+                self.res.label("remove:protected-descendant:refused")
             del ent
-            return False
+            gc.collect()
+            live = apisnap(wd.ws, with_listings=False)["nodes"]
+            gone = [u for u in wd.nodes if u not in live]
+            wd.nodes = {u: live[u] for u in wd.nodes if u in live}
+            wd.kind = {u: k for u, k in wd.kind.items() if u in wd.nodes}
+            for g in gone:
+                self.removed[g] = (cls, "ws", "no-listing")
+            self.held = [h for h in self.held if str(h.uid) not in gone]
+            self.touch()
+            return True
         if op["via"] == "ws":
             if node.get("allow_delete") is False:
                 pre = apisnap(wd.ws, with_listings=False)["nodes"]
